@@ -31,11 +31,15 @@
      intersection-at-current rewrite of `range.start`) gets `remap_t_in_range(t, range)` with `t` in
      `(0,1]` - a convex combination of the ends of the range of the record it descends from
      (`remap_between`).  Snapping changes positions, never parameters.
-     `_partial` because of the two split branches: their parameter `Sources.splitT` is NOT confined
-     to `[0,1]` by the tests of the code - `is_edge_connecting` only requires the vertex to be within
-     the tolerance of the edge, not between its ends (`split_parameter_not_confined_witness`: exact
-     arithmetic, `t = 3/2`); it IS in `[0,1]` when the vertex lies between the ends along the larger
-     extent (`splitT_unit`), which is what holds for a vertex exactly on the edge.
+     `_partial` because of the two split branches.  Until lyon 96af7b62 their parameter `Sources.splitT`
+     was NOT confined to `[0,1]` by the tests of the code - `is_edge_connecting` only requires the vertex
+     to be within the tolerance of the edge, not between its ends (`split_parameter_not_confined_witness`:
+     exact arithmetic, `t = 3/2`) - a genuine defect reachable end to end (`Props/C07c.lean`, finding
+     `C07-split-parameter-beyond-edge-end`).  Since the fix (mirrored: `Sources.splitTAtVertex`, the guard
+     `endsWithin`) the parameters ARE in `[0,1]` for a split point between the ends of the edge in sweep order
+     (`C07c.split_edge_fixed_parameter_unit`, `merge_guard_parameter_unit`; unconditionally on the flat
+     branch); the restriction stays because that hypothesis ("an active edge spans the current vertex in y")
+     is a sweep invariant not yet proved for every step function.
   c. (positions) NOT lifted to the whole sweep.  In exact arithmetic "the record's position is its source
      edge's point at the reported t" holds where `Props/C07.lean` proves it for the record operations
      (`rep_intersection`, `rep_intersection_below`, `rep_touch`: the cut point is the exact crossing;
@@ -438,12 +442,16 @@ def witnessState : St Rat := {
 /-- **`split_parameter_not_confined_witness`** (exact rational arithmetic, the model's own functions
 evaluated by the kernel): `is_edge_connecting` accepts the vertex `(10, 5)` as lying on the active edge
 `(9.97, 4.99) → (9.99, 5.005)` - it is `0.017` to the right of the edge, within the threshold `0.1` - and
-puts the edge into `edges_to_split`; `split_edge` computes the split parameter along the larger (`x`)
-extent, `t = 3/2`, and pushes the record of the lower part with `range.start = remap(3/2, 0..1) = 3/2`:
-outside `[0,1]`, with the ids `7 → 8` of the source record.  This is why the range theorems exclude the
-split branches (`_partial`).  (A statement about the model's step functions; whether a complete sweep
-reaches such a state - it needs an active edge shorter than the tolerance next to a vertex - is not
-established, and the oracle of the check has not met an instance.) -/
+puts the edge into `edges_to_split`; the split parameter along the larger (`x`) extent, `Sources.splitT`, is
+`t = 3/2`: outside `[0,1]`.  Until lyon 96af7b62 `split_edge` pushed the record of the lower part with
+`range.start = remap(3/2, 0..1) = 3/2` (this theorem's third clause then read `some (3/2, 1, 7, 8)`; complete
+runs reaching such parameters: `Props/C07c.lean`, finding `C07-split-parameter-beyond-edge-end`).  SINCE the
+fix (`Sources.splitTAtVertex`, mirrored in `Sweep.splitEdge`) the x-parameter is only used when it is in
+`[0,1]`; here `split_edge` falls back to the parameter at the vertex's own y, `(5 - 4.99)/0.015 = 2/3`, and
+pushes `range.start = 2/3` with the ids `7 → 8` of the source record.  The run is still marked `Tainted`
+(bit 5): the range theorems below keep excluding the split branches, because on the y-branch the parameter
+is in `[0,1]` only for an active edge that spans the current vertex in sweep order, which is not proved as an
+invariant of the sweep (see `Props/C07c.lean`). -/
 theorem split_parameter_not_confined_witness :
     (match witnessState.active[0]? with
      | some e => (match isEdgeConnecting witnessState.curPos witnessState.tolerance e with
@@ -452,7 +460,7 @@ theorem split_parameter_not_confined_witness :
      | none => false) = true ∧
     Sources.splitT (⟨997/100, 499/100⟩ : P Rat) ⟨999/100, 1001/200⟩ ⟨10, 5⟩ = 3/2 ∧
     (((splitEdge 0).run.run witnessState).2.q.edgeData.back?.map fun d => (d.t0, d.t1, d.fromId, d.toId))
-      = some (3/2, 1, 7, 8) ∧
+      = some (2/3, 1, 7, 8) ∧
     Tainted ((splitEdge 0).run.run witnessState).2.cov := by
   refine ⟨by decide +kernel, by decide +kernel, by decide +kernel, ?_⟩
   left
